@@ -345,6 +345,7 @@ class ArgumentParser(ParserDeprecations, ActionsContainer, ArgumentLinking, argp
         skip_required: bool = False,
         skip_subcommands: bool = False,
         fail_no_subcommand: bool = True,
+        environ: Optional[Union[Dict[str, str], os._Environ]] = None,
     ) -> Namespace:
         """Common parsing code used by other parse methods.
 
@@ -357,6 +358,7 @@ class ArgumentParser(ParserDeprecations, ActionsContainer, ArgumentLinking, argp
             skip_required: Whether to skip check of required arguments.
             skip_subcommands: Whether to skip subcommand processing.
             fail_no_subcommand: Whether to fail if no subcommand given.
+            environ: The environment object subcommand parsers should use, if None `os.environ` is used.
 
         Returns:
             A config object with all parsed values.
@@ -366,7 +368,7 @@ class ArgumentParser(ParserDeprecations, ActionsContainer, ArgumentLinking, argp
 
         if not skip_subcommands:
             _ActionSubCommands.handle_subcommands(
-                self, cfg, env=env, defaults=defaults, fail_no_subcommand=fail_no_subcommand
+                self, cfg, env=env, defaults=defaults, fail_no_subcommand=fail_no_subcommand, environ=environ
             )
 
         if defaults:
@@ -589,6 +591,7 @@ class ArgumentParser(ParserDeprecations, ActionsContainer, ArgumentLinking, argp
                 "with_meta": with_meta,
                 "skip_validation": skip_validation,
                 "skip_subcommands": skip_subcommands,
+                "environ": env,
             }
             if skip_validation:
                 kwargs["fail_no_subcommand"] = False
